@@ -235,6 +235,7 @@ func (d *driver) runPath(t task, ts *TermStore, sol *Solver) {
 		}()
 		ex.callSSA(nil, t.j.fn, nil, nil)
 	}()
+	ex.killThreads()
 	sol.PopAll()
 	if splitReq != "" {
 		var name string
@@ -380,6 +381,7 @@ type replayFile struct {
 	Msg       string `json:"msg"`
 	Site      string `json:"site"`
 	Stack     []string `json:"stack,omitempty"`
+	Sched     []int    `json:"sched,omitempty"`
 }
 
 func signedOf(kind, v string) string {
@@ -554,7 +556,7 @@ func runProperty(rc *runConfig) int {
 		if b := strings.Index(base, "["); b >= 0 {
 			base = base[:b]
 		}
-		rf := replayFile{Harness: base, Pkg: hs.funcs[base], Values: map[string]string{}, Splits: e.v.Split, Tier: tierNum(rc.tier), Property: rc.prop, Assertion: e.v.Assertion, Kind: e.v.Kind, Msg: e.v.Msg, Site: e.v.Site, Stack: e.v.Stack}
+		rf := replayFile{Harness: base, Pkg: hs.funcs[base], Values: map[string]string{}, Splits: e.v.Split, Tier: tierNum(rc.tier), Property: rc.prop, Assertion: e.v.Assertion, Kind: e.v.Kind, Msg: e.v.Msg, Site: e.v.Site, Stack: e.v.Stack, Sched: e.v.Sched}
 		for name, val := range e.v.Model {
 			rf.Values[name] = signedOf(e.v.Kinds[name], val)
 		}
@@ -584,7 +586,7 @@ func runProperty(rc *runConfig) int {
 			for _, e := range byPkg[pkg] {
 				files = append(files, e.replayPath)
 			}
-			res := nativeReplay(hs, pkg, files, rc.verbose)
+			res := nativeReplay(P, hs, pkg, files, rc.verbose)
 			for _, e := range byPkg[pkg] {
 				e.confirmed = res[e.replayPath]
 				nReplayed++
